@@ -33,7 +33,7 @@ ASSUMPTIONS = ["std::getline semantics of a 'line': pieces between newlines, a t
                "planned errors are the only errors: a call whose return value disagrees with the plan is discarded"]
 FLOORS = {"quick": 300, "thorough": 3000}
 SHARDS = {"quick": 8, "thorough": 16}
-BUDGET = {"quick": 700, "thorough": 8000, "replay": 1}
+BUDGET = {"quick": 700, "thorough": 5000, "replay": 1}
 
 NUMS = [1, 2, 3, 10, 77]
 STREAMS = ["output", "log", "error", "dump", "so"]
@@ -70,7 +70,9 @@ def render_so_block(b, fileopt):
 
 SO_LISTS = {"totals": ["Na", "Cl", "Ca", "C(4)", "K"], "molalities": ["Na+", "Cl-", "OH-", "HCO3-", "Ca+2"],
             "saturation_indices": ["Calcite", "Halite", "CO2(g)"], "activities": ["H+", "Na+"]}
-PUNCH_ITEMS = ['TOT("Na")', 'TOT("Cl")', "MU", "TC", 'MOL("Cl-")', '-LA("H+")', "STEP_NO", "SIM_NO", '"zq"', 'SI("Halite")', "1/3"]
+# (SC, RHO, VISCOS, SOLN_VOL, OSMOTIC: quantities that the output-printing code computes as well)
+PUNCH_ITEMS = ['TOT("Na")', 'TOT("Cl")', "MU", "TC", 'MOL("Cl-")', '-LA("H+")', "STEP_NO", "SIM_NO", '"zq"', 'SI("Halite")', "1/3",
+               "SC", "RHO", "VISCOS", "SOLN_VOL", "OSMOTIC"]
 
 
 @st.composite
